@@ -57,8 +57,11 @@ Choices(ctx, k, env) ==
 \* n: assignments evaluated; ov: assignments dropped because a leaf value left the 32-bit guard; unk: constraint / LMI
 \* evaluations whose value left the guard (not judged)
 ZeroAcc == [n |-> 0, ov |-> 0, unk |-> 0, bad |-> {}, tight |-> {}]
-Merge(a, b) == [n |-> a.n + b.n, ov |-> a.ov + b.ov, unk |-> a.unk + b.unk, bad |-> a.bad \cup b.bad, tight |-> a.tight \cup b.tight]
-Judge(t, m, cv, lv) ==
+\* (bad keeps the first witness per <<constraint family, member>>)
+Merge(a, b) == [n |-> a.n + b.n, ov |-> a.ov + b.ov, unk |-> a.unk + b.unk,
+                bad |-> IF b.bad = {} THEN a.bad ELSE a.bad \cup {x \in b.bad : \A y \in a.bad : y[1] # x[1] \/ y[2] # x[2]},
+                tight |-> a.tight \cup b.tight]
+Judge(t, m, env, cv, lv) ==
   LET unkc == {c \in 1..Len(t.cons) : IsOvf(cv[c])}
       badc == {c \in 1..Len(t.cons) : c \notin unkc /\ IF t.cons[c].s = "eq" THEN ~RIsZ(cv[c]) ELSE RPos(cv[c])}
       tightc == {c \in 1..Len(t.cons) : c \notin unkc /\ t.cons[c].s = "ineq" /\ RIsZ(cv[c])}
@@ -67,16 +70,18 @@ Judge(t, m, cv, lv) ==
       psd == [l \in 1..Len(t.lmis) |-> IF l \in unkl \/ l \in asym THEN 2 ELSE PSD3(lv[l], t.lmis[l].n)]
   IN The({[n |-> 1, ov |-> 0,
            unk |-> Cardinality(unkc) + Cardinality({l \in 1..Len(t.lmis) : l \notin asym /\ ps[l] = 2}),
-           bad |-> {<<t.cons[c].nm, m.tag>> : c \in badc} \cup {<<t.lmis[l].nm \o "-not-psd", m.tag>> : l \in {l \in 1..Len(t.lmis) : ps[l] = 0}}
-                   \cup {<<t.lmis[l].nm \o "-not-symmetric", m.tag>> : l \in asym},
+           \* failing <<constraint family, member, witness = the values of the leaf points>>
+           bad |-> {<<t.cons[c].nm, m.tag, ToString(env)>> : c \in badc}
+                   \cup {<<t.lmis[l].nm \o "-not-psd", m.tag, ToString(env)>> : l \in {l \in 1..Len(t.lmis) : ps[l] = 0}}
+                   \cup {<<t.lmis[l].nm \o "-not-symmetric", m.tag, ToString(env)>> : l \in asym},
            tight |-> {t.cons[c].nm : c \in tightc}] : ps \in {psd}})
-Eval2(t, m, gram, fenv) ==
-  The({Judge(t, m, cv, lv) :
+Eval2(t, m, env, gram, fenv) ==
+  The({Judge(t, m, env, cv, lv) :
          cv \in {[c \in 1..Len(t.cons) |-> SVal(t.cons[c], gram, fenv)]},
          lv \in {[l \in 1..Len(t.lmis) |-> LET n == t.lmis[l].n IN
                     [i \in 1..n |-> [j \in 1..n |-> SVal(t.lmis[l].E[(i - 1) * n + j], gram, fenv)]]]}})
 LeafEval(t, m, env) ==
-  The({Eval2(t, m, gram, fenv) :
+  The({Eval2(t, m, env, gram, fenv) :
          gram \in {[i \in 1..t.NP |-> [j \in 1..t.NP |-> IF i <= j THEN TDot(env[i], env[j]) ELSE Z]]},
          fenv \in {[k \in 1..t.NE |-> MVal(m, SPt(t.fr[k], env, m.dim, 1))]}})
 RECURSIVE Walk(_, _, _), Fold(_, _, _, _, _)
@@ -104,8 +109,8 @@ Step == /\ mi < Len(Mems(T))
                \* a history that uses the block partition needs a member whose dimension carries the blocks
                r == IF T.d > m.dim THEN ZeroAcc ELSE Walk(ctx, 1, <<>>)
            IN \E rr \in {r} :      \* (bound once: see The)
-              /\ bad' = bad \cup rr.bad \cup (IF mi = 0 THEN {<<"MACHINERY-sparse-evaluation", nm>> : nm \in XCheck(T)} ELSE {})
-                        \cup (IF CaseOK(T) THEN {} ELSE {<<"MACHINERY-case-index", T.cls>>})
+              /\ bad' = bad \cup rr.bad \cup (IF mi = 0 THEN {<<"MACHINERY-sparse-evaluation", nm, "">> : nm \in XCheck(T)} ELSE {})
+                        \cup (IF CaseOK(T) THEN {} ELSE {<<"MACHINERY-case-index", T.cls, "">>})
               /\ nev' = nev + rr.n
               /\ nov' = <<nov[1] + rr.ov, nov[2] + rr.unk>>
               /\ tight' = tight \cup rr.tight
